@@ -547,9 +547,8 @@ fc_statements = [
         # All Fortran can do is treat as a type(C_PTR).
         name="c_native_**_in",
         buf_args=["arg_decl"],
-        c_arg_decl=[
-            "{cxx_type} **{cxx_var}",
-        ],
+        # No c_arg_decl, the C argument is the declaration itself
+        # (keeps const at every level).
         f_arg_decl=[
             "type(C_PTR), intent(IN), value :: {c_var}",
         ],
